@@ -25,6 +25,14 @@ impl Rng {
     pub fn fork(&mut self) -> Rng { Rng(self.next()) }
 }
 
+/// A per-process scratch directory for side runs (replays, throw-away `Run`s): `$VH_SCRATCH/<name>` when the
+/// check sets VH_SCRATCH (it removes it afterwards), else `<system temp dir>/vh-<pid>/<name>`. Never a fixed path,
+/// so concurrent runs do not share files and nothing outside the check's work directory has to exist.
+pub fn scratch(name: &str) -> String {
+    let base = std::env::var("VH_SCRATCH").unwrap_or_else(|_| format!("{}/vh-{}", std::env::temp_dir().display(), std::process::id()));
+    format!("{base}/{name}")
+}
+
 pub fn hex(b: &[u8]) -> String {
     if b.is_empty() { return "-".into(); }
     let mut s = String::with_capacity(b.len() * 2);
@@ -55,6 +63,7 @@ pub struct Run {
     pub nontrivial: u64,
     pub dist: BTreeMap<String, u64>,
     pub samples: Vec<String>,
+    pub sample_streams: BTreeSet<String>,
     pub fails: Vec<OracleFail>,
     pub notes: BTreeMap<String, serde_json::Value>,
     pub exhaustive: bool,
@@ -72,7 +81,7 @@ impl Run {
         let ops = std::io::BufWriter::new(std::fs::File::create(format!("{dir}/ops.txt")).unwrap());
         let imp = std::io::BufWriter::new(std::fs::File::create(format!("{dir}/impl.txt")).unwrap());
         Run { prop, ops, imp, dir: dir.into(), n_cases: 0, distinct: BTreeSet::new(), nontrivial: 0,
-              dist: BTreeMap::new(), samples: vec![], fails: vec![], notes: BTreeMap::new(), exhaustive: false }
+              dist: BTreeMap::new(), samples: vec![], sample_streams: BTreeSet::new(), fails: vec![], notes: BTreeMap::new(), exhaustive: false }
     }
     /// One correspondence case: `stream` names the model function, `input` the canonical input text,
     /// `out` the implementation's canonical output. `nontrivial` by the property's stated rule.
@@ -82,7 +91,10 @@ impl Run {
         writeln!(self.ops, "{} {} {} {}", self.prop, stream, id, input).unwrap();
         writeln!(self.imp, "{} {} {} {}", self.prop, stream, id, out).unwrap();
         if nontrivial && self.distinct.insert(fnv(stream) ^ fnv(input)) { self.nontrivial += 1; }
-        if self.samples.len() < 6 && (id < 2 || (nontrivial && id % 97 == 3)) {
+        // samples: the first non-trivial case of each stream (up to 8 streams), then the old rule as a fallback
+        let new_stream = nontrivial && self.samples.len() < 8 && !self.sample_streams.contains(stream);
+        if new_stream { self.sample_streams.insert(stream.to_string()); }
+        if new_stream || (self.samples.len() < 3 && (id < 2 || (nontrivial && id % 97 == 3))) {
             let mut s = format!("{stream} {input} => {out}");
             if s.len() > 400 { s.truncate(400); s.push('…'); }
             self.samples.push(s);
